@@ -310,6 +310,53 @@ PROPS["C21"] = {
     "not_covered": ["32-bit chunked (discontiguous) update path", "extreme_assertions sanity mirror"],
 }
 
+PROPS["C08"] = {
+    "ready": False,
+    "level": "other",
+    "technique": "Kani proof harnesses on the real VO-bit lookups; find_object_from_internal_pointer verified modularly against the byte-scanner contract (CBMC); function level, bounded window",
+    "anchors": [("find_object_from_internal_pointer", "src/util/metadata/vo_bit/mod.rs"), ("is_vo_bit_set_for_addr", "src/util/metadata/vo_bit/mod.rs"),
+                ("is_internal_ptr_from_vo_bit", "src/util/metadata/vo_bit/mod.rs"), ("find_prev_non_zero_value", "src/util/metadata/side_metadata/global.rs")],
+    "kani": {"prefix": "c08_", "files": ["c08_interior.rs", "side.rs", "mmapper.rs", "vm.rs"], "timeout_quick": 1800, "timeout_thorough": 3600},
+    "functions": ["vo_bit::{is_vo_bit_set_for_addr, is_vo_bit_set_inner, find_object_from_internal_pointer, is_internal_ptr_from_vo_bit, is_internal_ptr, get_object_ref_for_vo_addr}",
+                  "SideMetadataSpec::{find_prev_non_zero_value (fast path against the scanner contract, simple path inlined as the debug cross-check), is_mapped, load_atomic}"],
+    "explanation": "FUNCTION LEVEL (the VO-bit kernel behind is_mmtk_object / find_object_from_internal_pointer), on a symbolic VO-bit table of a 4 KiB data window at a symbolic heap "
+                   "position: is_vo_bit_set_for_addr(a) is Some(a) iff the bit of a's word is set, for every word-aligned a; find_object_from_internal_pointer(p, n) for every p of "
+                   "the window, every n in 8..=64 and a symbolic object size returns Some(o) only if o is a valid object at most n bytes below p, no valid object lies between o and p, and "
+                   "p < start(o) + size(o); returns None only if no valid object in range contains p; neither writes metadata nor panics (mmtk's own fast==simple cross-check is live). "
+                   "The byte-scanning loop is used through its contract (C22). Space dispatch through the SFT, LargeObjectSpace's page-wise lookup, unmapped addresses and larger limits are "
+                   "not covered; level 'other'.",
+    "bounds": ["VO-bit table window of 64 bytes (4 KiB of heap)", "search limit 8..=64 bytes (the region-by-region cross-check is unwound to 12)", "object size 8..=4096 bytes"],
+    "assumptions": ["all addresses of the window are mapped (harness mmapper)", "ObjectModel::get_current_size returns the object's size (symbolic)",
+                    "limits below one word with an unaligned pointer are the recorded C22 known finding and are excluded"],
+    "trusted_base": ["kani::stub of global_side_metadata_base_address and create_mmapper", "contract stub of find_last_non_zero_bit_in_metadata_bytes (backed by C22's bounded harness)"],
+    "not_covered": ["memory_manager::is_mmtk_object / find_object_from_internal_pointer dispatch through the SFT", "LargeObjectSpace::find_object_from_internal_pointer (page-wise)",
+                    "addresses outside MMTk memory / unmapped metadata", "search limits above 64 bytes"],
+}
+
+PROPS["C17"] = {
+    "ready": False,
+    "level": "other",
+    "technique": "Kani proof harnesses on the real object_forwarding functions for every metadata placement of the harness binding family (CBMC); sequential kernel only",
+    "anchors": [("attempt_to_forward", "src/util/object_forwarding.rs"), ("forward_object", "src/util/object_forwarding.rs"),
+                ("spin_and_get_forwarded_object", "src/util/object_forwarding.rs"), ("read_forwarding_pointer", "src/util/object_forwarding.rs"),
+                ("write_forwarding_pointer", "src/util/object_forwarding.rs")],
+    "kani": {"prefix": "c17_", "files": ["c17_forwarding.rs", "obj.rs", "side.rs", "vm.rs"], "timeout_quick": 900, "timeout_thorough": 2400},
+    "functions": ["object_forwarding::{attempt_to_forward, get_forwarding_status, forward_object, write_forwarding_pointer, read_forwarding_pointer, "
+                  "spin_and_get_forwarded_object, clear_forwarding_bits, is_forwarded, is_forwarded_or_being_forwarded, forwarding_bits_offset_in_forwarding_pointer}"],
+    "explanation": "SEQUENTIAL KERNEL ONLY. Each protocol step is verified as a state transformer on the forwarding bits / forwarding word for three placements "
+                   "(bits on the side at a symbolic table position; bits = low bits of the pointer word; bits in the header byte below the reference) with all other header and "
+                   "side-table bits symbolic: attempt_to_forward returns the previous bits and moves 00 -> BEING_FORWARDED touching nothing else; a later tracer gets 10/11, "
+                   "never 00, and changes nothing (so for any sequential order of N tracers exactly one copies); forward_object calls ObjectModel::copy exactly once, leaves "
+                   "FORWARDED, and read_forwarding_pointer / spin_and_get_forwarded_object (stale 10 or 11) return exactly the winner's reference for every reference "
+                   "representable under FORWARDING_POINTER_MASK; with bits 00 a tracer gets the unmoved object; only the forwarding bits and the pointer word (its masked part when "
+                   "the bits live elsewhere) change. Not decided by this family and therefore assumed: atomicity of the CAS / stores and all overlapping interleavings.",
+    "bounds": ["non-overlapping executions only; three metadata layouts"],
+    "assumptions": ["atomicity of each RMW and memory orderings (sequential semantics)", "new references fit FORWARDING_POINTER_MASK (8-byte aligned, below 2^56)",
+                    "ObjectModel::copy returns a valid reference (symbolic) and does not touch the old object's forwarding state"],
+    "trusted_base": ["kani::stub of global_side_metadata_base_address", "core::sync::atomic as modelled by Kani/CBMC"],
+    "not_covered": ["overlapping interleavings (one copier / no torn reads under races)", "CopySpace / ImmixSpace trace_object callers"],
+}
+
 PROPS["C18"] = {
     "ready": False,
     "level": "other",
@@ -332,6 +379,30 @@ PROPS["C18"] = {
     "trusted_base": ["kani::stub of global_side_metadata_base_address", "core::sync::atomic as modelled by Kani/CBMC"],
     "not_covered": ["overlapping interleavings of the racing threads", "ImmixSpace::attempt_mark and LargeObjectSpace::test_and_mark (need a space instance)",
                     "mark_byte_as_unlogged (documented to touch neighbouring objects' bits)"],
+}
+
+PROPS["C24"] = {
+    "ready": False,
+    "level": "other",
+    "technique": "Kani proof harnesses over the real spec tables, side_first/side_after constructors and reserved-range computation (CBMC); per-configuration activation sets are not under contract",
+    "anchors": [("side_metadata_offset_after", "src/util/metadata/side_metadata/global.rs"), ("define_side_metadata_specs", "src/util/metadata/side_metadata/spec_defs.rs"),
+                ("side_first", "src/vm/object_model.rs"), ("side_after", "src/vm/object_model.rs"), ("total_side_metadata_bytes", "src/util/metadata/side_metadata/layout.rs")],
+    "kani": {"prefix": "c24_", "files": ["c24_layout.rs"], "timeout_quick": 900, "timeout_thorough": 2400, "features_quick": [["object_pinning"]], "features_thorough": [["object_pinning"], []]},
+    "functions": ["side_metadata_offset_after", "SideMetadataSpec::upper_bound_offset", "helpers::metadata_address_range_size / log_data_meta_ratio",
+                  "the core spec tables of spec_defs.rs (all 3 global and 16 local constants)", "VM*Spec::{side_first, side_after, as_spec} for the six per-object metadata kinds",
+                  "layout::{set_vm_side_metadata_specs, total_side_metadata_bytes}"],
+    "explanation": "(i, complete) side_metadata_offset_after(s) clears s's whole address range and is the next word boundary, for every well-formed spec. (ii) the real core tables are "
+                   "chained with it from their base offsets, every pair of the same kind is disjoint and the local table lies above the global one (symbolic pair of indices over the real constants). "
+                   "(iii) for every subset of the local per-object VM specs declared on the side and EVERY declaration order (symbolic permutation, built with the real side_first/side_after), "
+                   "the specs are pairwise disjoint, lie above every core local spec and below the reserved size computed by the real registration code; the side log bit lies above the core "
+                   "global specs and inside the reserved range. Cross-kind: on 64-bit a side VMGlobalLogBitSpec starts where the core local table starts; the harness proves that it overlaps "
+                   "EXACTLY the two malloc mark-sweep tables (MALLOC_MS_ACTIVE_PAGE, MS_OFFSET_MALLOC) and no other core local table. Which specs one configuration activates is decided "
+                   "by plan/space constructors that cannot be brought under a contract, so 'no configuration uses a side log bit together with MallocSpace' is an unchecked assumption; level 'other'.",
+    "bounds": ["none for (i); (ii)-(iii) range over this codebase's finite spec inventory"],
+    "assumptions": ["no plan configuration activates both a side VMGlobalLogBitSpec and the MallocSpace tables (reading the plan constructors: only MarkSweep with malloc_mark_sweep uses MallocSpace, and it registers no log bit)",
+                    "VM bindings declare side specs only through side_first/side_after chains of one kind"],
+    "trusted_base": ["the list of core spec constants in c24_layout.rs mirrors spec_defs.rs (a spec added to spec_defs.rs but not to the harness is not checked; the chaining assertions detect reordering and removal)"],
+    "not_covered": ["per-plan SideMetadataContext contents", "32-bit chunked local layout"],
 }
 
 PROPS["C26"] = {
@@ -364,22 +435,24 @@ PROPS["C26"] = {
 PROPS["C27"] = {
     "ready": False,
     "level": "other",
-    "technique": "Kani proof harnesses on the real RawMemoryFreeList with the OS mmap call stubbed by a recorder (CBMC); growth arithmetic complete, growth scenarios bounded by table size",
+    "technique": "Kani proof harnesses on the real RawMemoryFreeList growth code with the OS mmap call stubbed by a recorder (CBMC): growth/capacity arithmetic complete and memory-free; growth on a real table as concrete scenarios (thorough tier)",
     "anchors": [("grow_freelist", "src/util/raw_memory_freelist.rs"), ("grow_list_by_blocks", "src/util/raw_memory_freelist.rs"),
                 ("raise_high_water", "src/util/raw_memory_freelist.rs"), ("current_capacity", "src/util/raw_memory_freelist.rs")],
-    "kani": {"prefix": "c27_", "files": ["c27_rawfreelist.rs"], "timeout_quick": 1500, "timeout_thorough": 3600},
-    "functions": ["RawMemoryFreeList::{new, grow_freelist, grow_list_by_blocks, raise_high_water, current_capacity, units_per_block, units_in_first_block, size_in_pages, "
-                  "default_block_size, get_entry, set_entry, alloc}", "FreeList::{set_sentinel, set_size, add_to_free, alloc, size} as used by growth"],
-    "explanation": "(complete, loop-free) raise_high_water for all (base, table size 1..2^20 pages, pages_per_block 1..16, blocks) and two consecutive calls: maps exactly "
-                   "[old high water, new high water), new high water = min(old + blocks*block, limit), never beyond the limit, no arithmetic failure. "
-                   "(bounded by table size) growth to the configured maximum on a real table in a zeroed harness buffer: for every max_units whose table needs 3 pages with "
-                   "2-page blocks (table size NOT a multiple of the block size) and every split k1 + k2 = max_units, both grow_freelist calls succeed, current_units reaches "
-                   "max_units, a further growth is refused, mapped ranges are contiguous from base and stay below the limit, and every grown unit is allocatable (the two grown "
-                   "regions are allocated, disjoint, sizes exact, nothing left). The same for a table of two whole 1-page blocks.",
-    "bounds": ["table sizes: 3 pages / 2-page blocks (max_units 1023..1534) and 2 pages / 1-page blocks (max_units 511..1022); two growth steps; grain == max_units (as Map64 uses it)"],
-    "assumptions": ["mmap returns zeroed memory at the requested address (the stub records the request; the buffer is zeroed)"],
+    "kani": {"prefix": "c27_", "files": ["c27_rawfreelist.rs"], "timeout_quick": 900, "timeout_thorough": 3600},
+    "functions": ["RawMemoryFreeList::{new, raise_high_water, current_capacity, units_per_block, units_in_first_block, size_in_pages, default_block_size}",
+                  "RawMemoryFreeList::{grow_freelist, grow_list_by_blocks, get_entry, set_entry, alloc} (thorough tier, concrete scenarios on a real table)"],
+    "explanation": "(complete, loop-free, no table memory) For every base address, table size 1..2^20 pages, 1..4 heads, block sizes 1/2/3/16 pages: raise_high_water maps exactly "
+                   "[old high water, new high water), new high water = min(old + blocks*block, limit), never beyond the limit, for two consecutive calls (general state); "
+                   "current_capacity() is exactly the number of unit slots of the mapped table minus the head sentinels and the bottom sentinel (including a last block cut short "
+                   "at the limit); raising the number of blocks grow_freelist computes for a request makes the capacity cover the request -- so the list cannot get stuck below its "
+                   "configured maximum -- and a fully mapped table holds max_units. (thorough tier, concrete scenarios) the real grow_freelist / alloc on a zeroed table buffer: "
+                   "3-page table with 2-page blocks (max 1534 units, steps 1022 + 512) and 2-page table with 1-page blocks: both growth steps succeed, current_units reaches the maximum, "
+                   "a further growth is refused, mapped ranges are contiguous and below the limit, all grown units are allocatable. Symbolic unit counts on a real 12 KiB table exhaust "
+                   "CBMC's memory (40 GB), so the table-initialisation part is not proved for all unit counts; level 'other'.",
+    "bounds": ["arithmetic: none beyond table size <= 2^20 pages, heads <= 4, block size in {1,2,3,16} pages", "table initialisation: two concrete growth scenarios (thorough tier only)"],
+    "assumptions": ["mmap returns zeroed memory at the requested address (the stub records the request)", "pages_per_block <= table pages (what default_block_size guarantees)"],
     "trusted_base": ["kani::stub of RawMemoryFreeList::mmap (OS::dzmmap)"],
-    "not_covered": ["tables larger than 3 pages, more than two growth steps, grains smaller than the growth step", "Map64::create_parent_freelist's sizing arithmetic (f64)"],
+    "not_covered": ["grow_list_by_blocks' sentinel / free-run initialisation for symbolic unit counts (free-list behaviour itself is C26)", "Map64::create_parent_freelist's sizing arithmetic (f64)"],
 }
 
 PROPS["C28"] = {
@@ -427,6 +500,32 @@ PROPS["C31"] = {
                     "Map32", "SFTRefStorage load/store (128-bit atomics)"],
 }
 
+PROPS["C34"] = {
+    "ready": False,
+    "level": "other",
+    "technique": "Kani proof harnesses on the real immix block-state encoding, line arithmetic, hole search and line marking (CBMC); loops bounded by the code constant Block::LINES",
+    "anchors": [("get_next_available_lines", "src/policy/immix/immixspace.rs"), ("mark_lines_for_object", "src/policy/immix/line.rs"),
+                ("BlockState", "src/policy/immix/block.rs"), ("get_index_within_block", "src/policy/immix/line.rs")],
+    "kani": {"prefix": "c34_", "files": ["c34_immix.rs", "side.rs", "vm.rs"], "timeout_quick": 1800, "timeout_thorough": 3600,
+             "features_thorough": [[], ["immix_smaller_block"]]},
+    "functions": ["impl From<u8> for BlockState / From<BlockState> for u8, BlockState::is_reusable", "Block::{get_state, set_state, line_mark_table}",
+                  "Line::{block, get_index_within_block, mark, is_marked, mark_lines_for_object}", "ImmixSpace::get_next_available_lines (run on explicit line states through a hook)",
+                  "MetadataByteArrayRef::{new, get, len}"],
+    "explanation": "Complete (all inputs; loops bounded by the code constant Block::LINES = 128, unwinding assertions on): every byte decodes to a block state that encodes "
+                   "back to it and every state the sweeper produces round-trips; line/block index arithmetic for every line address; hole search on a fully symbolic line-mark "
+                   "table of one block with symbolic block address, cursor, current line mark state and last-full-GC state (both in 1..=127): the result is None iff no line "
+                   "at/after the cursor is available, otherwise the first maximal run of available lines -- in particular no returned line carries the current or the last "
+                   "full-GC mark; marking the lines of an object marks every line it spans, changes no other line mark and returns the number of newly marked lines "
+                   "(objects up to 1 KiB in the quick tier, up to a whole block in the thorough tier); block state set/get through the side table touches only that block's byte. "
+                   "NOT reached: the state-cycling arithmetic inside ImmixSpace::prepare/release (needs a live space), so the >127-GC wrap argument rests on the unchecked assumption "
+                   "that prepare keeps line_mark_state in 1..=127 and release copies it to line_unavail_state; level 'other'.",
+    "bounds": ["Block::LINES = 128 (code constant; 32 with immix_smaller_block in the thorough tier)", "object size <= 1024 bytes in the quick tier for mark_lines_for_object"],
+    "assumptions": ["ImmixSpace::prepare keeps line_mark_state within 1..=127 and release copies it into line_unavail_state (not under contract)",
+                    "Block::sweep resets stale line marks often enough for the wrap-around (not under contract)"],
+    "trusted_base": ["kani::stub of global_side_metadata_base_address", "hook get_next_available_lines_with_states builds an ImmixSpace of which only the two line-state fields are initialised"],
+    "not_covered": ["ImmixSpace::prepare / release / Block::sweep (need a live space, scheduler, chunk map)", "ImmixAllocator's use of the hole", "defragmentation"],
+}
+
 PROPS["C40"] = {
     "ready": False,
     "level": "other",
@@ -448,14 +547,58 @@ PROPS["C40"] = {
     "not_covered": ["inputs longer than 7 items (5 in the quick tier)", "impure key functions"],
 }
 
+PROPS["C19"] = {
+    "ready": False,
+    "level": "other",
+    "technique": "Kani bounded proof harnesses on the real BlockQueue / BlockPool driven by one thread (CBMC); sequential histories only, bounded stand-in",
+    "anchors": [("BlockQueue", "src/util/heap/blockpageresource.rs"), ("BlockPool", "src/util/heap/blockpageresource.rs"), ("push_relaxed", "src/util/heap/blockpageresource.rs"),
+                ("flush_all", "src/util/heap/blockpageresource.rs")],
+    "kani": {"prefix": "c19_", "files": ["c19_blockpool.rs"], "timeout_quick": 1200, "timeout_thorough": 5400},
+    "functions": ["BlockQueue::{new, push_relaxed, pop, len, is_empty, iterate_blocks, replace, get_entry, set_entry}",
+                  "BlockPool::{new, push, pop, flush, flush_all, len, iterate_blocks, add_global_array}"],
+    "explanation": "BOUNDED, SEQUENTIAL HISTORIES ONLY. BlockQueue: push adds exactly the block, pop returns the most recently pushed held block and removes it, None iff empty, "
+                   "len == blocks held, iterate yields exactly the held blocks, replace exchanges the contents of the two queues without loss; at CAPACITY (256, code constant, concrete "
+                   "loop) the next push is refused and returns the block. BlockPool with two workers and three symbolic blocks pushed by symbolic workers: len == blocks held, "
+                   "iterate_blocks yields each once, worker-local blocks are not handed out before a flush, after flush_all every held block is popped exactly once, only pushed blocks "
+                   "are popped, and the pool is then empty. Thorough tier: 257 pushes by one worker (queue overflow moves the full queue to the global list), all 257 blocks popped "
+                   "exactly once. Concurrent push/pop/flush histories -- the quantifier of the property -- are outside this family (Kani has no threads).",
+    "bounds": ["sequential histories: 3 symbolic blocks / 2 workers (quick), 257 concrete blocks / 1 worker (thorough)", "BlockQueue::CAPACITY = 256 (code constant)"],
+    "assumptions": ["atomicity of the cursor fetch_update and the RwLock (sequential semantics)", "push_relaxed is only called by the owning worker (its safety contract)"],
+    "trusted_base": ["kani::stub of scheduler::worker::current_worker_ordinal (thread-local) and of core::hint::spin_loop (pause intrinsic)", "spin::RwLock as compiled by Kani"],
+    "not_covered": ["all concurrent histories", "BlockPageResource::{alloc_pages, release_block} (need a VM map, mmapper and VM threads)"],
+}
+
 PROPS["C22"] = {
     "ready": False,
     "level": "other",
+    "technique": "Kani: complete bit-level helper proofs, bounded-window proofs of the byte-scanning loops, and a MODULAR proof of the fast search functions against the scanners' contracts (contract stubs), on the real side-metadata code (CBMC)",
     "anchors": [("find_prev_non_zero_value", "src/util/metadata/side_metadata/global.rs"), ("find_next_non_zero_value", "src/util/metadata/side_metadata/global.rs"),
                 ("scan_non_zero_values", "src/util/metadata/side_metadata/global.rs"),
                 ("find_last_non_zero_bit_in_metadata_bytes", "src/util/metadata/side_metadata/helpers.rs"),
                 ("scan_non_zero_bits_in_metadata_bytes", "src/util/metadata/side_metadata/helpers.rs")],
-    "kani": {"prefix": "c22x?_", "files": ["c22_search.rs", "side.rs", "mmapper.rs"], "timeout_quick": 1200, "timeout_thorough": 3600},
-    "functions": [],
-    "explanation": "x",
+    "kani": {"prefix": "c22_", "files": ["c22_search.rs", "side.rs", "mmapper.rs"], "timeout_quick": 1800, "timeout_thorough": 5400},
+    "functions": ["helpers::find_last_non_zero_bit / find_first_non_zero_bit (u8, usize)", "helpers::find_{last,first}_non_zero_bit_in_metadata_bits, scan_non_zero_bits_in_metadata_bits",
+                  "helpers::scan_non_zero_bits_in_metadata_word", "helpers::find_{last,first}_non_zero_bit_in_metadata_bytes [contract: result is the extreme set bit of the byte range / NotFound iff all zero]",
+                  "helpers::scan_non_zero_bits_in_metadata_bytes", "SideMetadataSpec::find_prev_non_zero_value_fast / find_next_non_zero_value_fast (checked against the scanners' contracts)",
+                  "SideMetadataSpec::find_prev_non_zero_value_simple / find_next_non_zero_value_simple", "SideMetadataSpec::scan_non_zero_values_fast",
+                  "helpers::{address_to_contiguous_meta_address, meta_byte_lshift, align_metadata_address, contiguous_meta_address_to_address}, ranges::break_bit_range as used by the searches"],
+    "explanation": "Complete (all inputs): find_last/first_non_zero_bit on u8/usize values and bit ranges; the in-byte find/scan on a symbolic byte; scan of a metadata word "
+                   "(visits exactly the set bits ascending; loop bounded by the word width). Bounded windows (complete within them): the byte-scanning loops "
+                   "find_{last,first}_non_zero_bit_in_metadata_bytes on every [start,end) inside a 24-byte fully symbolic buffer (byte->word->byte stepping at every alignment) and "
+                   "scan_non_zero_bits_in_metadata_bytes on a 16-byte buffer: the reported bit is set, inside the range, and no set bit precedes it in scan order (symbolic witness); "
+                   "NotFound iff the range is all zero. MODULAR step: find_prev/next_non_zero_value_fast are verified with the two byte-scanning loops replaced by their contract "
+                   "(a contract stub instantiated at a symbolic witness bit), which makes them loop-free, so they are proved for every field width 1/2/4/8 bits, every region size, "
+                   "every data address and EVERY search limit whose range lies inside a 64-byte (512-region) metadata window: the result is a region start inside the documented range "
+                   "with a non-zero field and no non-zero region is met earlier in scan order; None iff every region of the range is zero. The region-by-region reference implementations "
+                   "(_simple) satisfy the same specification for searches of up to 10 regions, and scan_non_zero_values_fast visits exactly the non-zero regions of [start,end) on a 16-byte "
+                   "window. Hence fast == simple (the property) wherever both are covered. One corner is a recorded known finding (see known_findings.txt).",
+    "bounds": ["byte-scanning loops: 24-byte / 16-byte buffers (unwind 26 / 11)", "fast searches: 64-byte metadata window (no unwinding bound: loop-free against the contracts)",
+               "reference scans: <= 10 regions, VO-bit geometry (1 bit / 8 bytes) in the quick tier, all widths and region sizes in the thorough tier", "scan_non_zero_values_fast: 16-byte window, <= 2 set bits per word"],
+    "assumptions": ["all metadata of the window is mapped (the mmapper stub answers 'mapped'); ranges at the edge of unmapped metadata are not covered",
+                    "specs with log_bytes_in_region >= log_num_of_bits (the inverse translation subtracts the two)",
+                    "the contract of the byte-scanning loops is discharged on windows of <= 24 bytes only (bounded), and used for longer ranges by the modular step"],
+    "trusted_base": ["kani::stub of global_side_metadata_base_address and of create_mmapper (harness mmapper: everything mapped, 4 MiB granularity)",
+                     "contract stubs contract_find_{last,first}_in_bytes in c22_search.rs (each backed by the bounded harness c22_find_in_bytes)"],
+    "not_covered": ["search ranges crossing unmapped metadata", "discontiguous (32-bit local) specs", "scan_non_zero_values_simple on multi-bit specs",
+                    "the public find_prev/next_non_zero_value wrappers with their debug cross-check are run only in the thorough tier on a 16-byte window"],
 }
